@@ -690,7 +690,51 @@ func modeC01() {
 		res.SampleSpread(int64(n), c.String())
 		os.RemoveAll(p.SrcRoot)
 	}
+	// thorough: two deviations - demoting a thread (plain and asleep for 400 ms) among them - on
+	// the tightest configurations (one or two files, at most three chunks, two streams, chunk
+	// size 4; fresh, partial, holed, first-chunk-only and other-chunk-size resume states), every
+	// shard taking a slice of each
+	nd2 := 0
+	if thorough {
+		for _, c := range cases {
+			nchunks := 0
+			for _, e := range c.Tree {
+				if e.Size > 0 {
+					nchunks += int((e.Size + int64(c.Chunk) - 1) / int64(c.Chunk))
+				}
+			}
+			if c.Chunk != 4 || nchunks < 2 || nchunks > 3 || len(c.Tree) > 2 || c.Streams != 2 || c.Conns != 1 || !c.NoRootDir || c.ScanPaths || c.LatencyMs != 0 || len(c.ChunkSeq) > 0 {
+				continue
+			}
+			switch c.Pre {
+			case "", "partial", "holes", "firstchunk", "partial@8", "holes@2":
+			default:
+				continue
+			}
+			if !c.Resume {
+				continue
+			}
+			p, err := prepare(c)
+			if err != nil {
+				continue
+			}
+			nd2++
+			cfg := baseCfg()
+			cfg.Demote = true
+			cfg.DemoteSleep = int64(400 * time.Millisecond)
+			exploreSharded(st, p, envFor("c01", p, ""), 2, deadline, cfg, true, func(x *vrt.Exec, o *Outcome) {
+				checkC01(p, x, o)
+				if x.Outcome == "ok" && o.SendErr == nil && o.RecvErr == nil {
+					res.Nontrivial(fmt.Sprintf("D2|%s|%x", keyOf(c), x.Trace()))
+				}
+			})
+			os.RemoveAll(p.SrcRoot)
+		}
+	}
 	st.cases = n
 	res.Extra["deviation_bound"] = "grid D=0; 2-stream cases with 1-4 chunks D=1"
+	if thorough {
+		res.Extra["deviation_bound"] = fmt.Sprintf("grid D=0; 2-stream cases with 1-4 chunks D=1; %d tightest configurations D=2 with demotion", nd2)
+	}
 	st.finish()
 }
